@@ -5,7 +5,8 @@ namespace Obao.SealKeys
 /-- all operations except the three that persist a keyring -/
 theorem step_generic {p sh rk KR S} (ns : Bool) (fk : Key) (b : Barrier) (op : Op)
     (h : PInv p sh rk KR) (hc : Coherent p rk KR) (hrk : rk ∈ S) (hsi : SealedIff b) (hsub : SubK S b KR)
-    (hop : op ≠ .rotate) (hop2 : ∀ k, op ≠ .rotroot k) (hop3 : ∀ k s, op ≠ .init k s) :
+    (hop : op ≠ .rotate) (hop2 : ∀ k, op ≠ .rotroot k) (hop3 : ∀ k s, op ≠ .init k s)
+    (hop4 : op ≠ .tick) (hop5 : ∀ d, op ≠ .setrot d) :
     let e := step ns p b fk op
     Concl (S ++ opKeys op) (applyWrites p e.writes) (updShadow sh op e.res) rk KR b e.bar := by
   cases op with
@@ -26,6 +27,9 @@ theorem step_generic {p sh rk KR S} (ns : Bool) (fk : Key) (b : Barrier) (op : O
   | rmupgrade t => simpa [opKeys] using step_rmupgrade ns fk b h hc hrk hsi hsub t
   | verifyroot k => simpa [opKeys] using step_verifyroot ns fk b h hc hrk hsi hsub k
   | keyinfo => simpa [opKeys] using step_keyinfo ns fk b h hc hrk hsi hsub
+  | tick => exact absurd rfl hop4
+  | setrot d => exact absurd rfl (hop5 d)
+  | heat => simpa [opKeys] using step_heat ns fk b h hc hsi hsub
 
 /-- `Initialize` on an initialised store: refused, nothing written; only the cached flag may change -/
 theorem step_init_live {p sh rk KR S} (ns : Bool) (fk : Key) (b : Barrier) (k : Key) (s : Option Key)
@@ -85,67 +89,78 @@ inductive Inv (S : List Key) (w : World) : Prop
       (sa : SealedIff w.a) (sb : SealedIff w.b) (suba : SubK S w.a KR) (sya : SyncK w.a KR) (subb : SubK S w.b KR) : Inv S w
 
 /-- on an empty store every operation except `init` leaves everything as it is -/
-theorem step_uninit (ns : Bool) (fk : Key) (op : Op) (hop : ∀ k s, op ≠ .init k s) :
+theorem step_uninit (ns : Bool) (fk : Key) (op : Op) (hop : ∀ k s, op ≠ .init k s) (hheat : op ≠ .heat) :
     (step ns [] {} fk op).bar = {} ∧ (step ns [] {} fk op).writes = [] ∧ updShadow [] op (step ns [] {} fk op).res = [] := by
   cases op with
   | init k s => exact absurd rfl (hop k s)
   | unsealB k => simp only [step]; by_cases hk : k.aesOK = true <;> simp [hk, Phys.get, updShadow]
   | rmupgrade t => simp only [step]; by_cases ht : t = 0 <;> simp [ht, updShadow]
+  | heat => exact absurd rfl hheat
   | _ => simp [step, updShadow]
 
 /-- `Initialize` on an empty store -/
 theorem step_init_fresh (ns : Bool) (fk k : Key) (s : Option Key) (hfk : fk.aesOK = true) :
     let e := step ns [] {} fk (.init k s)
-    e.bar = {} ∧ updShadow [] (.init k s) e.res = [] ∧
-    (e.writes = [] ∨ ∃ KR, PInv (applyWrites [] e.writes) [] k KR ∧ Coherent (applyWrites [] e.writes) k KR) := by
+    updShadow [] (.init k s) e.res = [] ∧
+    ((e.writes = [] ∧ e.bar = {}) ∨
+     (e.bar.keyring = none ∧ e.bar.sealed = true ∧
+      ∃ KR, PInv (applyWrites [] e.writes) [] k KR ∧ Coherent (applyWrites [] e.writes) k KR)) := by
   simp only [step]
   by_cases hsz : k.sizeOK = true
   · by_cases hk : k.aesOK = true
-    · have hb : (({} : Barrier).initFlag) = false := rfl
-      have hg : Phys.get [] Path.keyring = none := rfl
+    · have hg : Phys.get [] Path.keyring = none := rfl
       have htk : ({ root := k, keys := [(1, fk)], active := 1 } : Keyring).termKey 1 = some fk := by
-        simp [Keyring.termKey, List.lookup_cons]
+        simp [Keyring.termKey]
       obtain ⟨hp, hc⟩ := pinv_fresh k fk hk hfk
       have hp2 := hp.del_meta .legacy (by simp) (by simp) (by simp)
       have hc2 := hc.del_other .legacy (by simp)
       cases s with
       | none =>
-        simp [hsz, hb, hg, persist, hk, htk, hfk, updShadow, applyWrites, applyWrite]
+        simp [hsz, hg, persist, hk, htk, hfk, updShadow, applyWrites, applyWrite]
         exact ⟨_, hp2, hc2⟩
       | some sk =>
-        simp [hsz, hb, hg, persist, hk, htk, hfk, updShadow, applyWrites, applyWrite]
+        simp [hsz, hg, persist, hk, htk, hfk, updShadow, applyWrites, applyWrite]
         exact ⟨_, hp2.put_meta .kek 1 fk _ (by simp) (by simp) htk (by simp) (by simp), hc2.put_other _ _ (by simp)⟩
-    · have hb : (({} : Barrier).initFlag) = false := rfl
-      have hg : Phys.get [] Path.keyring = none := rfl
-      simp [hsz, hb, hg, persist, hk, updShadow]
+    · have hg : Phys.get [] Path.keyring = none := rfl
+      simp [hsz, hg, persist, hk, updShadow]
   · simp [hsz, updShadow]
 
 theorem subK_none (S : List Key) (KR : Keyring) : SubK S {} KR := by intro kr hkr; cases hkr
 theorem syncK_none (KR : Keyring) : SyncK {} KR := by intro kr hkr; cases hkr
 theorem sealedIff_none : SealedIff {} := by simp [SealedIff]
+theorem subK_of_none (S : List Key) (KR : Keyring) {b : Barrier} (h : b.keyring = none) : SubK S b KR := by
+  intro kr hkr; rw [h] at hkr; cases hkr
+theorem syncK_of_none (KR : Keyring) {b : Barrier} (h : b.keyring = none) : SyncK b KR := by
+  intro kr hkr; rw [h] at hkr; cases hkr
+theorem sealedIff_of_none {b : Barrier} (h : b.keyring = none) (hs : b.sealed = true) : SealedIff b := by
+  simp [SealedIff, h, hs]
 
 /-- validity of one step of a history: the standby (`who = true`) never persists a keyring -/
-def ValidStep (who : Bool) (op : Op) : Prop := who = true → op ≠ .rotate ∧ ∀ k, op ≠ .rotroot k
+def ValidStep (who : Bool) (op : Op) : Prop :=
+  op ≠ .heat ∧ (who = true → op ≠ .rotate ∧ (∀ k, op ≠ .rotroot k) ∧ op ≠ .tick ∧ ∀ d, op ≠ .setrot d)
 
 theorem inv_exec {S w} (hinv : Inv S w) (who : Bool) (op : Op) (hv : ValidStep who op) :
     Inv (S ++ opKeys op) (w.exec who op).1 := by
   have mono : ∀ x, x ∈ S → x ∈ S ++ opKeys op := fun x hx => List.mem_append_left _ hx
   have hfk : (termKeyN w.nextT).aesOK = true := termKeyN_aesOK _
+  obtain ⟨hheat, hvb⟩ := hv
   cases hinv with
   | uninit hp ha hb hsh =>
     by_cases hop : ∃ k s, op = .init k s
     · obtain ⟨k, s, rfl⟩ := hop
-      obtain ⟨h1, h2, h3⟩ := step_init_fresh w.ns (termKeyN w.nextT) k s hfk
+      obtain ⟨h2, h3⟩ := step_init_fresh w.ns (termKeyN w.nextT) k s hfk
       cases who <;>
       · simp only [World.exec, hp, ha, hb, hsh, Bool.false_eq_true, if_false, if_true] at *
-        rcases h3 with h3 | ⟨KR, h3, h3c⟩
+        rcases h3 with ⟨h3, h1⟩ | ⟨hkn, hse, KR, h3, h3c⟩
         · refine Inv.uninit ?_ ?_ ?_ ?_ <;> simp [h1, h2, h3, applyWrites]
         · refine Inv.live k KR ?_ ?_ (by simp [opKeys]) ?_ ?_ ?_ ?_ ?_
           · simpa [h2] using h3
           · simpa using h3c
-          all_goals simp [h1, sealedIff_none, subK_none, syncK_none]
+          all_goals first
+            | exact sealedIff_none | exact subK_none _ _ | exact syncK_none _
+            | exact sealedIff_of_none hkn hse | exact subK_of_none _ _ hkn | exact syncK_of_none _ hkn
     · have hop' : ∀ k s, op ≠ .init k s := fun k s hh => hop ⟨k, s, hh⟩
-      obtain ⟨h1, h2, h3⟩ := step_uninit w.ns (termKeyN w.nextT) op hop'
+      obtain ⟨h1, h2, h3⟩ := step_uninit w.ns (termKeyN w.nextT) op hop' hheat
       cases who <;>
       · simp only [World.exec, hp, ha, hb, hsh, Bool.false_eq_true, if_false, if_true] at *
         refine Inv.uninit ?_ ?_ ?_ ?_ <;> simp [h1, h2, h3, applyWrites]
@@ -157,30 +172,41 @@ theorem inv_exec {S w} (hinv : Inv S w) (who : Bool) (op : Op) (hv : ValidStep w
         obtain ⟨rk', KR', g1, g2, g3, g4, g5, g6, g7⟩ := step_rotate w.ns (termKeyN w.nextT) w.a h hc hrk sa suba sya hfk
         simp only [World.exec, Bool.false_eq_true, if_false]
         exact Inv.live rk' KR' g1 g2 (mono _ g3) g4 sb (g5.mono mono) g6 ((subb.grow g7).mono mono)
-      · by_cases hrr : ∃ k, op = .rotroot k
-        · obtain ⟨k, rfl⟩ := hrr
-          obtain ⟨rk', KR', g1, g2, g3, g4, g5, g6, g7⟩ := step_rotroot w.ns (termKeyN w.nextT) w.a h hc hrk sa suba sya k
+      · by_cases ht : op = .tick
+        · subst ht
+          obtain ⟨rk', KR', g1, g2, g3, g4, g5, g6, g7⟩ := step_tick w.ns (termKeyN w.nextT) w.a h hc hrk sa suba sya
           simp only [World.exec, Bool.false_eq_true, if_false]
-          exact Inv.live rk' KR' g1 g2 g3 g4 sb g5 g6 ((subb.grow g7).mono mono)
-        · have hrr' : ∀ k, op ≠ .rotroot k := fun k hh => hrr ⟨k, hh⟩
-          by_cases hop : ∃ k s, op = .init k s
-          · obtain ⟨k, s, rfl⟩ := hop
-            obtain ⟨g1, g2, g3, g4, g5⟩ := step_init_live w.ns (termKeyN w.nextT) w.a k s h hc sa suba
+          exact Inv.live rk' KR' g1 g2 (mono _ g3) g4 sb (g5.mono mono) g6 ((subb.grow g7).mono mono)
+        · by_cases hsr : ∃ d, op = .setrot d
+          · obtain ⟨d, rfl⟩ := hsr
+            obtain ⟨rk', KR', g1, g2, g3, g4, g5, g6, g7⟩ := step_setrot w.ns (termKeyN w.nextT) w.a h hc hrk sa suba sya d
             simp only [World.exec, Bool.false_eq_true, if_false]
-            exact Inv.live rk KR g1 g2 (mono _ hrk) g3 sb g4 (g5 sya) (subb.mono mono)
-          · have hop' : ∀ k s, op ≠ .init k s := fun k s hh => hop ⟨k, s, hh⟩
-            obtain ⟨g1, g2, g3, g4, g5⟩ := step_generic w.ns (termKeyN w.nextT) w.a op h hc hrk sa suba hr hrr' hop'
-            simp only [World.exec, Bool.false_eq_true, if_false]
-            exact Inv.live rk KR g1 g2 (mono _ hrk) g3 sb g4 (g5 sya) (subb.mono mono)
+            exact Inv.live rk' KR' g1 g2 (mono _ g3) g4 sb (g5.mono mono) g6 ((subb.grow g7).mono mono)
+          · have hsr' : ∀ d, op ≠ .setrot d := fun d hh => hsr ⟨d, hh⟩
+            by_cases hrr : ∃ k, op = .rotroot k
+            · obtain ⟨k, rfl⟩ := hrr
+              obtain ⟨rk', KR', g1, g2, g3, g4, g5, g6, g7⟩ := step_rotroot w.ns (termKeyN w.nextT) w.a h hc hrk sa suba sya k
+              simp only [World.exec, Bool.false_eq_true, if_false]
+              exact Inv.live rk' KR' g1 g2 g3 g4 sb g5 g6 ((subb.grow g7).mono mono)
+            · have hrr' : ∀ k, op ≠ .rotroot k := fun k hh => hrr ⟨k, hh⟩
+              by_cases hop : ∃ k s, op = .init k s
+              · obtain ⟨k, s, rfl⟩ := hop
+                obtain ⟨g1, g2, g3, g4, g5⟩ := step_init_live w.ns (termKeyN w.nextT) w.a k s h hc sa suba
+                simp only [World.exec, Bool.false_eq_true, if_false]
+                exact Inv.live rk KR g1 g2 (mono _ hrk) g3 sb g4 (g5 sya) (subb.mono mono)
+              · have hop' : ∀ k s, op ≠ .init k s := fun k s hh => hop ⟨k, s, hh⟩
+                obtain ⟨g1, g2, g3, g4, g5⟩ := step_generic w.ns (termKeyN w.nextT) w.a op h hc hrk sa suba hr hrr' hop' ht hsr'
+                simp only [World.exec, Bool.false_eq_true, if_false]
+                exact Inv.live rk KR g1 g2 (mono _ hrk) g3 sb g4 (g5 sya) (subb.mono mono)
     | true =>
-      obtain ⟨hr, hrr'⟩ := hv rfl
+      obtain ⟨hr, hrr', ht, hsr'⟩ := hvb rfl
       by_cases hop : ∃ k s, op = .init k s
       · obtain ⟨k, s, rfl⟩ := hop
         obtain ⟨g1, g2, g3, g4, _⟩ := step_init_live w.ns (termKeyN w.nextT) w.b k s h hc sb subb
         simp only [World.exec, if_true]
         exact Inv.live rk KR g1 g2 (mono _ hrk) sa g3 (suba.mono mono) sya g4
       · have hop' : ∀ k s, op ≠ .init k s := fun k s hh => hop ⟨k, s, hh⟩
-        obtain ⟨g1, g2, g3, g4, _⟩ := step_generic w.ns (termKeyN w.nextT) w.b op h hc hrk sb subb hr hrr' hop'
+        obtain ⟨g1, g2, g3, g4, _⟩ := step_generic w.ns (termKeyN w.nextT) w.b op h hc hrk sb subb hr hrr' hop' ht hsr'
         simp only [World.exec, if_true]
         exact Inv.live rk KR g1 g2 (mono _ hrk) sa g3 (suba.mono mono) sya g4
 
